@@ -80,7 +80,7 @@ PROPS["C15"] = {
 
 PROPS["C02"] = {
     "level": "exploration",
-    "budget_s": {"quick": 80, "thorough": 2400},
+    "budget_s": {"quick": 110, "thorough": 2400},
     "modes": [{"name": "", "runs": {"quick": 3800, "thorough": 200000}, "chunk": 200},
               {"name": "positive", "runs": {"quick": 1200, "thorough": 60000}, "chunk": 200}],
     "rule": ("one run = one generated case (recursion allowed: self/mutual recursive permissions, expansion cycles, wide nodes; mode 'positive' without negation) with global max_read_depth g in 1..8, request max-depth r in -3..10, "
